@@ -368,7 +368,9 @@ var specs = map[string]*CheckSpec{
 	},
 	"C08": {
 		ID: "C08", Patterns: []string{vmPkg, cmdPkg}, NeedShapes: true, NeedHelper: true, Instrument: true,
-		Runs:   []HarnessRun{vmRun("ZZ_C08", 5), concRun("ZZ_C08Cache", "ZZ_C08CacheN", "ZZ_C08CacheDesc", "compilation cache:", 1, 2, false, nil, []int{0})},
+		Runs: []HarnessRun{vmRun("ZZ_C08", 5),
+			{Pkg: vmPkg, Dir: "internal/machine/vm", Mod: "ledger", Fn: "ZZ_C08X", Shapes: countShapes(vmPkg, "ZZ_C08XN"), Cfg: vmCfg, Desc: harnessDesc(vmPkg, "ZZ_C08XDesc", "rest of the grammar:"), CanaryShapes: []int{0, 8}},
+			concRun("ZZ_C08Cache", "ZZ_C08CacheN", "ZZ_C08CacheDesc", "compilation cache:", 1, 2, false, nil, []int{0})},
 		Bounds: numgenBounds, Assumptions: append([]string{"RefSem (harness zz_ast.go) is the trusted reading of the source text", "command.Compiler.Compile is interpreted (sha256 as injective token); gcache is modelled as a bounded LFU map; two concurrent requests with different texts, cache sizes 1/2/1024, pre-emption budget 1"}, vmStubs...), Encoded: vmEncoded,
 		Rule:   "differential: real compiler (native) + real VM (symbolic) against the reference semantics; per (source,destination,asset) sums compared by the solver on every path; compile acceptance compared with the language's static rules",
 	},
